@@ -12,6 +12,8 @@ import (
 	"os"
 	"path/filepath"
 	"strings"
+	"syscall"
+	"time"
 )
 
 type Hello struct {
@@ -20,7 +22,7 @@ type Hello struct {
 	Cwd      string            `json:"cwd"`
 	Env      map[string]string `json:"env"`
 	Context  string            `json:"context"`
-	Files    map[string]string `json:"files"`    // initial content of the four output files
+	Files    map[string]string `json:"files"`     // initial content of the four output files
 	TmpFiles []string          `json:"tmp_files"` // listing of the directory holding the context file
 	Pid      int               `json:"pid"`
 }
@@ -84,5 +86,11 @@ func main() {
 		}
 	}
 	os.Stdout.WriteString(r.Stdout)
+	if r.Exit < 0 {
+		// a negative exit code means: die by that signal (the process has no exit status then)
+		os.Stdout.Sync()
+		syscall.Kill(os.Getpid(), syscall.Signal(-r.Exit))
+		time.Sleep(5 * time.Second)
+	}
 	os.Exit(r.Exit)
 }
